@@ -173,6 +173,6 @@ MUTANTS = [
 
 
 def run(ctx):
-    ctx.search("setconf", cases(), quick=1500, thorough=6000)
+    ctx.search("setconf", cases(), quick=1500, thorough=20000)
     ctx.enumerate("setconf", exhaustive_cases(4 if ctx.quick() else 5),
                   name="all-values-len<=%d-over-critical-alphabet" % (4 if ctx.quick() else 5))
